@@ -281,33 +281,14 @@ struct StepOut {
     human: String,
 }
 
-/// Tag of the cases in which a trap is replaced by another command while a
-/// delivery of its signal is caught but its action has not run yet.  yash-rs
-/// forgets such a delivery (TrapSet::set_action resets the pending flag), the
-/// strict oracle rejects that.  The class is only generated when the finding is
-/// registered as open in /verif/known_findings.json under this tag (then the
-/// driver reports KNOWN-FINDING instead of VIOLATION), or with
-/// `--opt retrap=1`; otherwise the generators stay out of it.
+/// Tag of the known finding F21: a signal that has a user command trap is
+/// caught, and before its action ran (i.e. from inside another trap action, or
+/// at TrapSet level between delivery and take) a new command is set for the
+/// same signal.  yash-rs forgets the delivery (GrandState::set_action resets
+/// the pending flag); the strict oracle rejects that.  Exactly the cases in
+/// which this happens carry the tag, so that the driver reports KNOWN-FINDING
+/// for them and VIOLATION for any other failure.
 const RETRAP_TAG: &str = "C11-retrap-pending";
-
-thread_local! {
-    static RETRAP_CLASS: std::cell::Cell<bool> = const { std::cell::Cell::new(false) };
-}
-fn retrap_class() -> bool {
-    RETRAP_CLASS.with(|c| c.get())
-}
-fn init_retrap_class(args: &Args) {
-    let forced = args.opt("retrap").map(|v| v != "0");
-    let registered = std::fs::read_to_string("known_findings.json")
-        .or_else(|_| std::fs::read_to_string("/verif/known_findings.json"))
-        .map(|t| {
-            // only the "open" part counts
-            let open = t.split("\"fixed\"").next().unwrap_or("").to_string();
-            open.contains(&format!("\"{RETRAP_TAG}\""))
-        })
-        .unwrap_or(false);
-    RETRAP_CLASS.with(|c| c.set(forced.unwrap_or(registered)));
-}
 
 thread_local! {
     /// operations applied so far in the current replay (to describe a panic)
@@ -482,20 +463,27 @@ where
                 OPLOG.with(|l| l.borrow_mut().clear());
                 while let Some(op) = choose(k, &disps, &pendings) {
                     k += 1;
+                    let mut in_class = false;
                     if let Op::SetAction(c, Act::Command(_), _, _) = &op {
                         if let Some(i) = univ.iter().position(|(x, _)| x == c) {
-                            out.retrap |= pendings[i];
+                            in_class = pendings[i];
                         }
                     }
                     OPLOG.with(|l| l.borrow_mut().push(op.show()));
                     rec.log.borrow_mut().clear();
                     let (rterm, rshow) = apply(&mut env, &state, &rec, &op).await;
                     out.saw_refusal |= rterm == "RErrIgnored";
+                    out.retrap |= in_class && rterm == "ROk";
                     let (oterm, oshow, d, npend, parent) = observe(&env, &state, &univ);
                     disps = d;
                     pendings = univ
                         .iter()
-                        .map(|(c, _)| env.traps.get_state(Condition::from(*c)).0.is_some_and(|t| t.pending))
+                        .map(|(c, _)| {
+                            env.traps
+                                .get_state(Condition::from(*c))
+                                .0
+                                .is_some_and(|t| t.pending && matches!(t.action, Action::Command(_)))
+                        })
                         .collect();
                     out.max_pending = out.max_pending.max(npend);
                     out.saw_parent |= parent;
@@ -633,17 +621,6 @@ fn run_fixed(w: &mut CasesWriter, stream: &str, univ: &[(i32, Disposition)], ops
 const ALL_CONDS: [i32; 13] =
     [0, SIGHUP, SIGINT, SIGQUIT, SIGKILL, SIGTERM, SIGCHLD, SIGSTOP, SIGTSTP, SIGTTIN, SIGTTOU, SIGUSR1, SIGUSR2];
 
-/// Would this operation replace the trap of a signal by a command while its
-/// caught flag is set?
-fn is_retrap(op: &Op, univ: &[(i32, Disposition)], pendings: &[bool]) -> bool {
-    match op {
-        Op::SetAction(c, Act::Command(_), _, _) => {
-            univ.iter().position(|(x, _)| x == c).is_some_and(|i| pendings[i])
-        }
-        _ => false,
-    }
-}
-
 fn deliverable(c: i32, d: Disposition) -> bool {
     c != 0 && c != SIGKILL && c != SIGSTOP && (d != Disposition::Default || c == SIGCHLD)
 }
@@ -715,9 +692,7 @@ fn random_history(w: &mut CasesWriter, r: &mut Rng, thorough: bool) {
     let has = move |c: i32| u.iter().any(|(x, _)| *x == c);
     let u2 = univ.clone();
     let mut tag = 0;
-    let gate = !retrap_class();
-    let u3 = univ.clone();
-    let (rep, done) = replay(&univ, move |k, disps, pendings| {
+    let (rep, done) = replay(&univ, move |k, disps, _| {
         if k >= len {
             return None;
         }
@@ -764,9 +739,6 @@ fn random_history(w: &mut CasesWriter, r: &mut Rng, thorough: bool) {
                 96..=97 => Op::DisableStop,
                 _ => Op::DisableAll,
             };
-            if gate && is_retrap(&op, &u3, pendings) {
-                continue;
-            }
             if op.needs().iter().all(|c| has(*c)) {
                 return Some(op);
             }
@@ -861,16 +833,13 @@ fn corpus(w: &mut CasesWriter) {
         &[Op::EnableTerm, Op::EnterSubshell(true, false), Op::SetAction(SIGINT, c1, 1, false), Op::SetAction(SIGINT, c1, 2, true)],
     );
     // trap replaced while a delivery is waiting
-    if retrap_class() {
-        run_fixed(
-            w,
-            "corpus",
-            &[(SIGUSR1, D)],
-            &[Op::SetAction(SIGUSR1, c1, 1, false), Op::Deliver(SIGUSR1), Op::SetAction(SIGUSR1, c2, 2, false), Op::TakeAny],
-        );
-    } else {
-        w.count("gated:retrap-while-pending-class-skipped");
-    }
+    // (known finding F21: the minimal replay, kept so that every run reports it)
+    run_fixed(
+        w,
+        "corpus",
+        &[(SIGUSR1, D)],
+        &[Op::SetAction(SIGUSR1, c1, 1, false), Op::Deliver(SIGUSR1), Op::SetAction(SIGUSR1, c2, 2, false), Op::TakeAny],
+    );
     // ... by a non-command: the delivery is dropped
     run_fixed(
         w,
@@ -1305,13 +1274,12 @@ mod script {
                             // change a trap from inside an action
                             let t = SIGS[self.r.below(SIGS.len())].0;
                             let cands = self.bodies_for(t);
-                            // installing a command from inside an action can replace a
-                            // trap whose delivery is outstanding: only when that class
-                            // is generated
+                            // (a command installed from inside an action may replace a
+                            // trap whose delivery is outstanding: known finding F21)
                             let a = match self.r.below(3) {
                                 0 => Tact::Default,
                                 1 => Tact::Ignore,
-                                _ if !cands.is_empty() && retrap_class() => Tact::Body(*self.r.pick(&cands)),
+                                _ if !cands.is_empty() => Tact::Body(*self.r.pick(&cands)),
                                 _ => Tact::Ignore,
                             };
                             B::Trap(t, a)
@@ -1479,7 +1447,7 @@ mod script {
             true,
         );
         // the trap is replaced inside another action while a delivery is waiting
-        if retrap_class() {
+        // (known finding F21: the minimal replay, kept so that every run reports it)
         let tbl = vec![
             (1, vec![Probe(1001, 0), Raise(usr2, 1), Trap(usr2, Tact::Body(3)), Probe(12, 2)]),
             (2, vec![Probe(1002, 0)]),
@@ -1492,9 +1460,6 @@ mod script {
             &[trap(usr1, Tact::Body(1)), trap(usr2, Tact::Body(2)), raise(usr1, 4), p(1, 0), raise(usr2, 0), p(2, 0)],
             false,
         );
-        } else {
-            w.count("gated:retrap-while-pending-class-skipped");
-        }
         // ... removed inside another action: the delivery is dropped
         let tbl = vec![
             (1, vec![Probe(1001, 0), Raise(usr2, 1), Trap(usr2, Tact::Default), Probe(12, 2)]),
@@ -1524,8 +1489,6 @@ fn main() {
     let mut rng = Rng::new(args.seed);
     let mut w = CasesWriter::new(&args, "Yv.C11.Run", 150);
     use Disposition::{Default as D, Ignore as I};
-    init_retrap_class(&args);
-    w.count(if retrap_class() { "class:retrap-while-pending:generated" } else { "class:retrap-while-pending:gated-off" });
 
     corpus(&mut w);
 
@@ -1603,8 +1566,7 @@ fn bfs(w: &mut CasesWriter, stream: &str, univ: &[(i32, Disposition)], alpha: &[
             ops.push(op.clone());
             let v = ops.clone();
             let u = univ.to_vec();
-            let gate = !retrap_class();
-            let (rep, done) = replay(univ, move |k, disps, pendings| {
+            let (rep, done) = replay(univ, move |k, disps, _| {
                 let op = v.get(k)?;
                 if let Op::Deliver(c) = op {
                     let i = u.iter().position(|(x, _)| x == c).unwrap();
@@ -1612,13 +1574,10 @@ fn bfs(w: &mut CasesWriter, stream: &str, univ: &[(i32, Disposition)], alpha: &[
                         return None;
                     }
                 }
-                if gate && is_retrap(op, &u, pendings) {
-                    return None;
-                }
                 Some(op.clone())
             });
             if done.len() != ops.len() {
-                continue; // delivery outside the domain, or the gated class
+                continue; // delivery outside the domain
             }
             emit(w, stream, univ, &rep, &done);
             if seen.len() < max_states && seen.insert(rep.key.clone()) {
